@@ -543,20 +543,28 @@ func isDigitRunSkipSafe(re *syntax.Regexp) bool {
 		}
 		return isDigitRunSkipSafe(re.Sub[0])
 	case syntax.OpPlus, syntax.OpStar:
-		// + or * on a digit class: greedy unbounded → safe to skip
+		// + or * on the digit class: greedy unbounded → safe to skip
 		if len(re.Sub) == 1 && re.Sub[0].Op == syntax.OpCharClass {
-			return isDigitOnlyClass(re.Sub[0].Rune)
+			return isFullDigitClass(re.Sub[0].Rune)
 		}
 		return false
 	case syntax.OpRepeat:
 		// {N,} with no upper bound (Max == -1): greedy unbounded → safe
 		if re.Max == -1 && len(re.Sub) == 1 && re.Sub[0].Op == syntax.OpCharClass {
-			return isDigitOnlyClass(re.Sub[0].Rune)
+			return isFullDigitClass(re.Sub[0].Rune)
 		}
 		return false
 	default:
 		return false
 	}
+}
+
+// isFullDigitClass reports whether the class is exactly [0-9]. The candidate loops skip runs of
+// [0-9] (that is what the digit scanner finds); for a proper subset such as [0-5] a run of digits
+// contains positions the class cannot start at, and a later start inside the run can still match
+// ([0-5]+\.[0-5]+ on "915.2" matches at 1), so the run may not be skipped.
+func isFullDigitClass(runes []rune) bool {
+	return len(runes) == 2 && runes[0] == '0' && runes[1] == '9'
 }
 
 // isSafeForReverseSuffix checks if a pattern is safe for UseReverseSuffix strategy.
